@@ -99,7 +99,7 @@ class C01:
         "the synchronous API is the reference model (a bug present identically in both twins is invisible here)",
         "template sources are static during a run (edits are C23's subject)",
     ]
-    REQUIRED_REACH = ["reach.suspended_op", "reach.overlap", "reach.same_template_concurrently",
+    REQUIRED_REACH = ["fault.cancel_landed", "fault.loader_error", "reach.suspended_op", "reach.overlap", "reach.same_template_concurrently",
                       "reach.exec_out_of_order", "reach.drop_suspension", "reach.op.render", "reach.op.load",
                       "reach.op.analyze", "reach.op.helper", "reach.outcome.err"]
 
@@ -158,6 +158,16 @@ class C01:
             return op
 
         clients = [{"id": c, "ops": [gen_op() for _ in range(rng.randint(1, 5))]} for c in range(rng.randint(1, 6))]
+        loader_faults = {}
+        if kind in ("sim", "csim", "choice", "cchoice") and rng.chance(0.25):
+            # a backing store that fails for some names (not "not found": a real error), the same way
+            # for both APIs: both must then fail with the same kind of error, none may quietly fall back
+            for nm in rng.sample(names, rng.randint(1, min(2, len(names)))):
+                loader_faults[nm] = rng.choice(["OSError", "ValueError", "UnicodeDecodeError", "LiquidSyntaxError"])
+        for c in clients:
+            for op in c["ops"]:
+                if rng.chance(0.06):
+                    op["cancel_after"] = round(rng.random() * 0.01, 5)   # this caller gives up; the others must not notice
         override = None
         if kind == "fs" and rng.chance(0.5):
             # two search directories; between two phases of the run (nothing in flight) some names gain a
@@ -186,6 +196,7 @@ class C01:
             "capacity": rng.choice([1, 2, 300]), "auto_reload": rng.chance(0.7),
             "uptodate": rng.choice(["fs-like", "sync", "none"]), "ext": rng.choice([None, ".liquid"]),
             "templates": templates, "mains": mains, "datas": datas, "clients": clients, "override": override,
+            "loader_faults": loader_faults,
             "sched_seed": rng.randrange(1 << 30),
             "lat": {"max": 0.01, "zero_p": rng.choice([0.1, 0.4]), "stall_p": rng.choice([0.0, 0.03])},
             "profile": rng.chance(0.04),
@@ -212,16 +223,18 @@ class C01:
                 CachingFileSystemLoader(root, ext=sc["ext"], **kw)
         if kind == "pkg":
             return PackageLoader(sc["pkg"], package_path="templates", ext=".liquid")
+        lf = sc.get("loader_faults") or {}
         if kind == "sim":
-            return StaticSimLoader(store, loop_ref, sc["uptodate"], matter=True)
+            return StaticSimLoader(store, loop_ref, sc["uptodate"], matter=True, faults=lf)
         if kind == "csim":
             ld = CachingSimLoader(store, loop_ref, sc["uptodate"], **kw)
+            ld.faults = dict(lf)
             ld.namespaced = bool(sc["ns_key"])   # a namespaced store behind a cache without namespace_key
             return ld                            # would be a misconfiguration, not a defect
         names = sorted(sources)
         half = {n: sources[n] for n in names[::2]}
         rest = {("", n): sources[n] for n in names[1::2]}
-        subs = [DictLoader(half), StaticSimLoader(rest, loop_ref, sc["uptodate"], namespaced=False),
+        subs = [DictLoader(half), StaticSimLoader(rest, loop_ref, sc["uptodate"], namespaced=False, faults=lf),
                 FileSystemLoader(fs.path("root"))]
         return ChoiceLoader(subs) if kind == "choice" else CachingChoiceLoader(subs, **kw)
 
@@ -422,7 +435,24 @@ class C01:
                 in_flight[me] = tkey
                 s0, e0 = loop.suspensions, loop.executor_jobs
                 inv = loop.event("op.invoke")
-                got = await async_op(op)
+                if op.get("cancel_after") is not None:
+                    sub = loop.create_task(async_op(op), name="%s.r%d" % (me, op["uid"]))
+                    loop.streams[sub.get_name()] = loop.rng.fork("op", op["uid"], "sub")
+                    fired = []
+                    h = loop.call_later(op["cancel_after"], lambda: (fired.append(1), sub.cancel()))
+                    try:
+                        got = await sub
+                    except asyncio.CancelledError:
+                        if not (sub.cancelled() and fired):
+                            raise
+                        del in_flight[me]
+                        bump(st, "fault.cancel_landed")
+                        history.append([op["uid"], inv, loop.event("op.cancelled"), "cancelled"])
+                        continue
+                    finally:
+                        h.cancel()
+                else:
+                    got = await async_op(op)
                 ret = loop.event("op.return")
                 del in_flight[me]
                 if loop.suspensions - s0 > 0 or loop.executor_jobs - e0 > 0:
@@ -430,6 +460,8 @@ class C01:
                 want = _norm(sync_op(op), fs.root)
                 got = _norm(got, fs.root)
                 bump(st, "reach.outcome." + got[0])
+                if got[0] == "err" and "name" in op and op["name"] in (sc.get("loader_faults") or {}):
+                    bump(st, "fault.loader_error")
                 res["states"].append(int(digest((kind, sc["loader"], got[0], got[1] if got[0] == "err" else ""))[:12], 16))
                 history.append([op["uid"], inv, ret, got[0], got[1] if got[0] == "err" else digest(got[1])])
                 if got != want:
